@@ -119,6 +119,12 @@ def _has_op(v, op, depth=0):
         return any(_has_op(a_, op, depth + 1) for a_ in list(v.args) + list(v.kw.values()))
     if isinstance(v, (tuple, list)):
         return any(_has_op(a_, op, depth + 1) for a_ in v)
+    if op == "cumsum":
+        # the kernel keeps a running sum of a one-dimensional array in closed form (`psum` / `psum_of` atoms inside a Grid element)
+        if isinstance(v, Grid):
+            return _has_op(v.elem, op, depth + 1)
+        if isinstance(v, Num):
+            return any(a_[0] == "app" and a_[1] in ("psum", "psum_of") for a_ in v.p.all_atoms_deep())
     for attr in ("items", "elts", "elems"):
         xs = getattr(v, attr, None)
         if isinstance(xs, (tuple, list)):
